@@ -70,13 +70,13 @@ class BlockPyEnvironment(Environment):
         if not skip_tifa:
             tifa_analysis(report=self.report)
         if inputs:
-            set_input(inputs)
+            set_input(inputs, report=report)
         if skip_run:
             student = get_sandbox(report=report)
             student.threaded = threaded
         else:
             if trace:
-                start_trace()
+                start_trace(report=self.report)
             student = run(report=report, threaded=threaded)
             student.threaded = threaded
         self.fields = {
